@@ -1,0 +1,10 @@
+//go:build verif
+
+package types
+
+// Contracts for the goverif VC generator (/verif). Comment-only file: it adds no code.
+
+// ConvertGoType dispatches on the dynamic type and calls the go*Recast functions, none of which
+// writes to memory reachable by its caller.
+//@ func ConvertGoType [C13] trusted
+//@   modifies nothing
